@@ -112,6 +112,74 @@ mut("override-second-use-only", ["C09"], "code_data/_blocks.py",
     "        if index not in self._index_to_order:\n            self._index_to_order[index] = len(self._index_to_order)\n",
     "        if index not in self._index_to_order:\n            self._index_to_order[index] = len(self._index_to_order)\n        elif index > 2:\n            return self._args[index], index\n")
 
+# ---- C11
+mut("from-flags-skips-nested", ["C11"], "code_data/_flags_data.py",
+    "    for f in flags_data:\n        flags |= getattr(_CodeFlag, f)",
+    "    for f in flags_data:\n        if f != 'NESTED':\n            flags |= getattr(_CodeFlag, f)")
+mut("forget-annotations-on-encode", ["C11", "C01"], "code_data/_code_data.py",
+    "    if code_data.future_annotations:\n        flags_data |= {\"annotations\"}\n", "")
+mut("enum-misses-iterable-coroutine", ["C11"], "code_data/_flags_data.py",
+    "[(name, i) for i, name in dis.COMPILER_FLAG_NAMES.items()]",
+    "[(name, i) for i, name in dis.COMPILER_FLAG_NAMES.items() if name != 'ITERABLE_COROUTINE']")
+mut("ignore-uncovered-bits", ["C11"], "code_data/_flags_data.py",
+    "    if not_covered:\n", "    if not_covered and not_covered < 0x400:\n")
+mut("kwonly-from-posonly", ["C11", "C01"], "code_data/_args.py",
+    "        kwonlyargcount=len(args.keyword_only),", "        kwonlyargcount=len(args.keyword_only) if len(args.keyword_only) != 2 else 1,")
+mut("nlocals-unchecked", ["C11"], "code_data/_code_data.py",
+    "    if code.co_nlocals != len(code.co_varnames):", "    if code.co_nlocals < len(code.co_varnames):")
+
+# ---- C07
+mut("max-integer-2-63", ["C07"], "code_data/_json_data.py",
+    "MIN_INTEGER, MAX_INTEGER = (-(2**53) + 1, (2**53) - 1)", "MIN_INTEGER, MAX_INTEGER = (-(2**63) + 1, (2**63) - 1)")
+mut("no-isinf-branch", ["C07"], "code_data/_json_data.py",
+    "        if isinf(value):\n            return {\"float\": \"inf\" if value > 0 else \"-inf\"}\n", "")
+mut("bytes-as-latin1", ["C07"], "code_data/_json_data.py",
+    "        return {\"bytes\": b64encode(value).decode(\"ascii\")}", "        return {\"bytes\": b64encode(value.strip()).decode(\"ascii\")}")
+mut("frozenset-as-list", ["C07"], "code_data/_json_data.py",
+    "        return {\"frozenset\": list(map(value_to_json, value))}", "        return list(map(value_to_json, value))")
+mut("neg-zero-collapsed", ["C07"], "code_data/_json_data.py",
+    "        if isnan(value):\n            return {\"float\": \"nan\"}\n        return value",
+    "        if isnan(value):\n            return {\"float\": \"nan\"}\n        if value == 0:\n            return 0.0\n        return value")
+mut("string-wrapper-not-parsed-docstring", ["C07"], "code_data/_json_data.py",
+    "        if \"docstring\" in tp:\n            tp[\"docstring\"] = string_from_json(tp[\"docstring\"])\n", "")
+mut("schema-line-number-string", ["C07"], "code_data/__init__.py",
+    "            \"line_number\": {\"type\": \"integer\"},", "            \"line_number\": {\"type\": \"string\"},")
+mut("drop-default-false-field", ["C07"], "code_data/_json_data.py",
+    "            if not field_is_default(f, value)", "            if not field_is_default(f, value) and f.name != '_line_offsets_override'")
+
+# ---- C12
+mut("loader-mutates-type-dict", ["C12"], "code_data/_json_data.py",
+    "        tp = copy(value[\"type\"])", "        tp = value[\"type\"]")
+mut("loader-pops-keys", ["C12"], "code_data/_json_data.py",
+    "    if \"arg\" in value:\n        value = copy(value)\n        value[\"arg\"] = arg_from_json(value[\"arg\"])",
+    "    if \"arg\" in value:\n        value[\"arg\"] = arg_from_json(value[\"arg\"])")
+mut("to-json-memoised", ["C12"], "code_data/_json_data.py",
+    "def code_data_to_json(code_data: CodeData) -> dict:\n    res = value_to_json(code_data)",
+    "_memo: dict = {}\n\n\ndef code_data_to_json(code_data: CodeData) -> dict:\n    if id(code_data) in _memo:\n        return _memo[id(code_data)][1]\n    res = value_to_json(code_data)\n    _memo[id(code_data)] = (code_data, res)")
+mut("normalize-cached-by-id", ["C12", "C06"], "code_data/_normalize.py",
+    "def normalize(x: T) -> T:\n",
+    "_cache: dict = {}\n\n\ndef normalize(x: T) -> T:\n    if isinstance(x, CodeData) and x.name in _cache:\n        return _cache[x.name]\n    res = _normalize(x)\n    if isinstance(x, CodeData) and x.name == '<module>':\n        _cache[x.name] = res\n    return res\n\n\ndef _normalize(x: T) -> T:\n")
+mut("loader-keeps-list-reference", ["C12", "C08"], "code_data/_json_data.py",
+    "    return {k: tuple(v) if isinstance(v, list) else v for k, v in d.items()}",
+    "    return {k: (v if k == '_line_offsets_override' else tuple(v)) if isinstance(v, list) else v for k, v in d.items()}")
+
+# ---- C08
+mut("constant-eq-falls-back-to-eq", ["C08"], "code_data/__init__.py",
+    "        return constant_key(self.constant) == constant_key(__o.constant)\n\n    def __hash__",
+    "        return self.constant == __o.constant or constant_key(self.constant) == constant_key(__o.constant)\n\n    def __hash__")
+mut("drop-is-neg-zero", ["C08", "C03"], "code_data/_constants.py",
+    "        return (type(value), replace_nan(value), is_neg_zero(value))", "        return (type(value), replace_nan(value))")
+mut("constant-hash-raw-value", ["C08"], "code_data/__init__.py",
+    "        return hash((constant_key(self.constant), self._index_override))", "        return hash((self.constant, self._index_override))")
+mut("jump-eq-false", ["C08"], "code_data/__init__.py",
+    "@dataclass(frozen=True)\nclass Jump(DataclassHideDefault):", "@dataclass(frozen=True, eq=False)\nclass Jump(DataclassHideDefault):")
+mut("instruction-not-frozen", ["C08"], "code_data/__init__.py",
+    "@dataclass(frozen=True)\nclass Name(DataclassHideDefault):", "@dataclass(unsafe_hash=True)\nclass Name(DataclassHideDefault):")
+mut("complex-key-ignores-imag-sign", ["C08", "C03"], "code_data/_constants.py",
+    "            is_neg_zero(value.real),\n            is_neg_zero(value.imag),", "            is_neg_zero(value.real),")
+mut("frozenset-key-as-tuple", ["C08"], "code_data/_constants.py",
+    "        return frozenset(map(constant_key, value))", "        return tuple(map(constant_key, value))")
+
 
 def run_one(m, props_filter):
     name, props, file, old, new = m
